@@ -59,14 +59,15 @@ type Op struct {
 	D  int    `json:"d,omitempty"` // swap direction: 0 = canonical asset0 in, 1 = canonical asset1 in
 	X  int64  `json:"x,omitempty"` // amount in
 	Dt int64  `json:"dt"`          // milliseconds to the next block
+	Ns int64  `json:"ns,omitempty"` // sub-millisecond part (0..999999 ns) of the NEXT block's time: real block times carry nanoseconds; records and queries are canonicalised to whole milliseconds by the module, so the reference works on floor(t/1ms) and the phase must be unobservable
 }
 
 func (o Op) String() string {
 	switch o.A {
 	case "swap":
-		return fmt.Sprintf("swap(pool%d,dir%d,%d)+%dms", o.P, o.D, o.X, o.Dt)
+		return fmt.Sprintf("swap(pool%d,dir%d,%d)+%dms%s", o.P, o.D, o.X, o.Dt, phase(o.Ns))
 	}
-	return fmt.Sprintf("%s+%dms", o.A, o.Dt)
+	return fmt.Sprintf("%s+%dms%s", o.A, o.Dt, phase(o.Ns))
 }
 
 // Seg is one end-of-block observation of a pool, in force from T until the next Seg.
@@ -157,6 +158,13 @@ type World struct {
 const pruneEpoch = "day"
 const dayMs = int64(24 * 3600 * 1000)
 
+func phase(ns int64) string {
+	if ns == 0 {
+		return ""
+	}
+	return fmt.Sprintf("@.%06dns", ns)
+}
+
 func ms(t time.Time) int64       { return t.UnixMilli() }
 func tms(m int64) time.Time      { return time.UnixMilli(m).UTC() }
 func sdkInt(n int64) sdkmath.Int { return sdkmath.NewInt(n) }
@@ -234,7 +242,7 @@ func NewWorld(cfg Config, r *core.Result) (*World, sdk.Context, *Ledger) {
 			panic("harness: setup: first position refused: " + out)
 		}
 	}
-	work = w.boundary(work, l, 1000, func(a, s, d string) { panic("harness: setup: " + a + ": " + d) })
+	work = w.boundary(work, l, 1000, 0, func(a, s, d string) { panic("harness: setup: " + a + ": " + d) })
 	return w, work, l
 }
 
@@ -281,7 +289,7 @@ func (w *World) countRecords(ctx sdk.Context) int {
 }
 
 // boundary observes the end-of-block prices, ends the block and begins the next one dt ms later.
-func (w *World) boundary(ctx sdk.Context, l *Ledger, dt int64, fail func(a, s, d string)) sdk.Context {
+func (w *World) boundary(ctx sdk.Context, l *Ledger, dt, ns int64, fail func(a, s, d string)) sdk.Context {
 	now := ms(ctx.BlockTime())
 	written := 0
 	for pi := range w.Pools {
@@ -306,7 +314,16 @@ func (w *World) boundary(ctx sdk.Context, l *Ledger, dt int64, fail func(a, s, d
 	l.Touch = [2]bool{}
 	before := w.countRecords(ctx)
 	stBefore := w.App.TwapKeeper.GetPruningState(ctx)
-	next, err := core.NextBlock(w.App, ctx, time.Duration(dt)*time.Millisecond)
+	// the next block time is (floor(now/1ms) + dt) ms + ns: the canonical millisecond advances by exactly dt
+	// whatever the two sub-millisecond phases are (dt >= 1 ms, so the step stays positive)
+	curPhase := int64(ctx.BlockTime().Nanosecond()) % int64(time.Millisecond)
+	if ns != curPhase {
+		w.R.Vacuity["block_times_with_submillisecond_phase_change"]++
+		if ns < curPhase {
+			w.R.Vacuity["block_times_with_decreasing_submillisecond_phase"]++
+		}
+	}
+	next, err := core.NextBlock(w.App, ctx, time.Duration(dt)*time.Millisecond+time.Duration(ns-curPhase))
 	if err != nil {
 		fail("block.boundary-succeeds", "block-boundary-error", err.Error())
 		return ctx
@@ -456,7 +473,7 @@ func (w *World) Apply(ctx sdk.Context, l *Ledger, op Op, fail func(a, s, d strin
 		w.R.Vacuity["midblock_answer_sets_compared"]++
 	}
 	if op.Dt > 0 {
-		ctx = w.boundary(ctx, l, op.Dt, fail)
+		ctx = w.boundary(ctx, l, op.Dt, op.Ns, fail)
 	}
 	return ctx, out
 }
